@@ -333,6 +333,8 @@ def random_sequences(run, n):
             c = run.rng.choice(["absent", "file", "file_ro", "dir"])
             if p == "q/r" and c == "dir":
                 c = "absent"
+            if p == "q/r" and c != "absent":
+                nodes.append(dict(t="d", p="q", m=0o755))
             if c == "file":
                 nodes.append(dict(t="f", p=p, c=run.rng.choice([b"hello\n", b"zzz"]), m=0o644))
             elif c == "file_ro":
@@ -404,7 +406,8 @@ def c05(run, replay=None):
         if a["status"] in ("ok", "changed"):
             if a["status"] == "changed":
                 nontrivial.add(json.dumps(desc, sort_keys=True))
-            if b["status"] != "ok" or [l for l in b["log"] if l[0] not in READ_ONLY] or r["impl_dbs"][1] != r["impl_dbs"][2]:
+            # `update_cache` legitimately refreshes the sync databases on every run: not part of the package set
+            if b["status"] != "ok" or [l for l in b["log"] if l[0] not in READ_ONLY | {"refresh"}] or r["impl_dbs"][1] != r["impl_dbs"][2]:
                 if known_sync_dep(r["tasks"][0], r["db"]):
                     run.known("K19-sync-dependency", "")
                 else:
